@@ -352,6 +352,9 @@ func (c *channel) Close() error {
 		return c.transport.Close()
 	}
 
+	// The transport already noticed that the peer is gone, but its local resources (the socket) still
+	// have to be released; an error here only says that it had been closed before.
+	_ = c.transport.Close()
 	return nil
 }
 
